@@ -10,12 +10,12 @@ d['reach_required']=[]
 print(json.dumps(d))
 PY
 if [ "$seed" = "-" ]; then
-  VERIF_EVIDENCE_DIR=/tmp/seed_evidence timeout 1500 /verif/.work/gosx check $spec quick 2>&1 | cut -c1-${W:-300} | tail -${N:-4}
+  VERIF_EVIDENCE_DIR=/tmp/seed_evidence timeout ${T:-1500} /verif/.work/gosx check $spec quick 2>&1 | cut -c1-${W:-300} | tail -${N:-4}
 else
   WT=/tmp/seedwt_try_$$; git -C /repo worktree add -q --detach $WT HEAD
   p=/verif/seeded/$seed/patch.diff; [ -f /verif/seeded/$seed/patch.rebased.diff ] && p=/verif/seeded/$seed/patch.rebased.diff
   git -C $WT apply $p || echo "APPLY FAILED"
-  VERIF_REPO=$WT VERIF_EVIDENCE_DIR=/tmp/seed_evidence timeout 1500 /verif/.work/gosx check $spec quick 2>&1 | cut -c1-${W:-300} | tail -${N:-4}
+  VERIF_REPO=$WT VERIF_EVIDENCE_DIR=/tmp/seed_evidence timeout ${T:-1500} /verif/.work/gosx check $spec quick 2>&1 | cut -c1-${W:-300} | tail -${N:-4}
   git -C /repo worktree remove --force $WT
 fi
 rm -f $spec
